@@ -188,13 +188,16 @@ class WeakForms(_Simu):
 
         if self.algo == AlgoType.elliptic:
             u = results["u"]
-            self._Set_solutions(self.problemType, u)
+            # the rates are not used by the elliptic scheme, but they must not survive the restore
+            v = np.zeros_like(u)
+            a = np.zeros_like(u)
+            self._Set_solutions(self.problemType, u, v, a)
 
         elif self.algo == AlgoType.parabolic:
             u = results["u"]
             # the iteration may have been saved with another time scheme
             v = results["v"] if "v" in results else np.zeros_like(u)
-            self._Set_solutions(self.problemType, u, v)
+            self._Set_solutions(self.problemType, u, v, np.zeros_like(u))
 
         elif self.algo in AlgoType.Get_Hyperbolic_Types():
             u = results["u"]
